@@ -26,7 +26,7 @@ type c04Desc struct {
 	Kind   string // "user" | "refund"
 	Amount string // decimal
 	Denom  string // L1 denom
-	Rcpt   string // "lower" | "upper" | "fresh"  (user kind only)
+	Rcpt   string // "lower" | "upper" | "fresh" | "module"  (user and hook kinds)
 }
 
 func (d c04Desc) String() string {
@@ -65,6 +65,9 @@ func c04Rcpt(kind string) string {
 		return strings.ToUpper(world.Addr("bob").String())
 	case "fresh":
 		return world.Addr("fresh-account-never-seen").String()
+	case "module":
+		// a valid L1 address that the L1 bank module lists as blocked for user transfers
+		return authtypes.NewModuleAddress(authtypes.FeeCollectorName).String()
 	}
 	panic(kind)
 }
@@ -269,7 +272,7 @@ func c04Run(rc *engine.RunCtx) *engine.Result {
 	var full, small []c04Desc
 	for _, a := range c04Amounts {
 		for _, d := range c04Denoms {
-			for _, rcp := range []string{"lower", "upper", "fresh"} {
+			for _, rcp := range []string{"lower", "upper", "fresh", "module"} {
 				full = append(full, c04Desc{"user", a, d, rcp})
 			}
 			full = append(full, c04Desc{"refund", a, d, ""})
@@ -287,6 +290,7 @@ func c04Run(rc *engine.RunCtx) *engine.Result {
 		small = append(small, c04Desc{"refund", a, "uinit", ""})
 	}
 	small = append(small, c04Desc{"hook", "1", "uinit", "lower"})
+	small = append(small, c04Desc{"user", "1", "uinit", "module"})
 	var trees [][]c04Desc
 	for _, d := range full {
 		trees = append(trees, []c04Desc{d})
@@ -363,7 +367,7 @@ func c04Run(rc *engine.RunCtx) *engine.Result {
 	res.Coverage["withdrawals_recorded"] = total.recorded
 	res.Coverage["withdrawals_claimed"] = total.claimed
 	res.Coverage["refused_at_entry_point"] = total.refusedAtEntry
-	res.Coverage["menu"] = map[string]any{"amounts": []string{"1", "2^63-1", "2^63", "2^64-1", "2^64", "2^64+1", "2^128"}, "denoms": []string{"uinit", "128-char denom", "ibc/<hash> with slash"}, "recipients": []string{"lower-case bech32", "upper-case bech32", "fresh account"}, "kinds": []string{"user withdrawal", "refund of a deposit with a malformed recipient", "user withdrawals (one, or two for amounts above 1) executed inside the deposit's own hook"}, "exhaustive_tree_sizes": maxExh}
+	res.Coverage["menu"] = map[string]any{"amounts": []string{"1", "2^63-1", "2^63", "2^64-1", "2^64", "2^64+1", "2^128"}, "denoms": []string{"uinit", "128-char denom", "ibc/<hash> with slash"}, "recipients": []string{"lower-case bech32", "upper-case bech32", "fresh account", "L1 module account on the bank's blocked list"}, "kinds": []string{"user withdrawal", "refund of a deposit with a malformed recipient", "user withdrawals (one, or two for amounts above 1) executed inside the deposit's own hook"}, "exhaustive_tree_sizes": maxExh}
 	res.Coverage["oracle"] = "every withdrawal event L2 emits for a positive amount and a valid L1 recipient: after proposing the tree built by the independent builder and finalizing it, the L1 claim succeeds and pays exactly the recorded amount; a recorded amount that does not fit the leaf format is a violation (the entry points must refuse what can never be completed)"
 	res.Assumptions = []string{"user holdings above what one deposit carries are produced by minting on L2 and funding the escrow on L1 (several deposits can add up to any amount)"}
 	res.Require(total.claimed > 100, "only %d claims succeeded", total.claimed)
